@@ -83,7 +83,8 @@ WRITE_THROUGH = ("set_value", "set_initial", "apply_initial")
 
 def _is_write_through(n):
     return isinstance(n, ast.Call) and isinstance(n.func, ast.Attribute) and n.func.attr in WRITE_THROUGH \
-        and ast.unparse(n.func.value) in ("self._method", "stage._method")
+        and (ast.unparse(n.func.value) in ("self._method", "stage._method") or
+             (isinstance(n.func.value, ast.Attribute) and n.func.value.attr == "_method" and isinstance(n.func.value.value, ast.Name)))   # `for s in ...iter_stages(..): s._method...`
 
 
 def _event(n):
@@ -594,9 +595,16 @@ def r13_8(ctx):
                   expected="work on a copy (initial = HashOrderedDict(initial)) before deleting/adding entries", found="; ".join(ast.unparse(m)[:60] for m in muts[:2]), fi=f,
                   node=(muts[0] if muts else None))
     f = prog.own_method("Stage", "set_initial")
-    calls = [c for c in walk_no_nested(f.node) if is_call_to(c, "set_initial", "self._method") or is_call_to(c, "apply_initial", "self._method")]
+    calls = [c for c in walk_no_nested(f.node) if isinstance(c, ast.Call) and isinstance(c.func, ast.Attribute) and c.func.attr in ("set_initial", "apply_initial")
+             and isinstance(c.func.value, ast.Attribute) and c.func.value.attr == "_method"]
     nn = ctx.norm(f)
-    ok = len(calls) == 1 and [nn.key(a) for a in calls[0].args] == ["self._augmented", "self.master._method", "self._initial"]
+    ok = len(calls) == 1
+    if ok:
+        who = ast.unparse(calls[0].func.value.value)
+        ok = [nn.key(a) for a in calls[0].args] == ["%s._augmented" % who, "self.master._method", "%s._initial" % who]
+        if who != "self":
+            lp = ctx.scope(f).enclosing_loops(calls[0])
+            ok = ok and bool(lp) and ast.unparse(lp[-1][0]) == who and "iter_stages" in ast.unparse(lp[-1][1]) and nn.key(lp[-1][1].func.value) == "self.master"
     ctx.check(ok, "Stage.set_initial re-applies the whole guess table to the live transcription", detail="write-through call", expected="self._method.set_initial(self._augmented, self.master._method, self._initial)",
               found="; ".join(ast.unparse(c) for c in calls), fi=f)
 
